@@ -13,12 +13,13 @@
 (* reflections of the Minkowski form diag(-1,1,..,1) in integer vectors of *)
 (* norm 1 or 2, plus one unimodular shear used by the projective classes.  *)
 (*                                                                         *)
-(* One TLC state per id.  TLC checks on every id: the payload is inside    *)
-(* the domain of its class, the matrices preserve the form, the derived    *)
-(* data is equivariant (derive(x.M) = derive(x).M), and distinct ids have  *)
-(* projectively distinct payloads - separately for primary and for derived *)
-(* data - so that the harness can decode ids from proj_data and,           *)
-(* independently, from aux_data.  Each state prints its payload record.    *)
+(* One TLC state per id (the ids are explored by applying one more         *)
+(* transformation).  TLC checks on every id: the payload is inside the     *)
+(* domain of its class, the matrices preserve the form, the derived data   *)
+(* is equivariant (derive(x.M) = derive(x).M), and the ids that matter are *)
+(* projectively distinct - separately for primary and for derived data -   *)
+(* so that the harness can decode ids from proj_data and, independently,   *)
+(* from aux_data.  Each state prints its payload record.                   *)
 (***************************************************************************)
 EXTENDS Naturals, Integers, Sequences, FiniteSets, TLC, Json
 
@@ -224,9 +225,11 @@ ShortIdsInjective ==
 (***************************************************************************)
 (* One state per id                                                        *)
 (***************************************************************************)
-Init == /\ cls \in Classes /\ k \in 1..K
-        /\ w \in UNION {[1..m -> Letters(cls)] : m \in 0..MaxWord}
-Next == UNCHANGED <<cls, k, w>>
+\* the ids are explored as a state machine: a base unit, then one more transformation applied
+Init == cls \in Classes /\ k \in 1..K /\ w = <<>>
+Next == /\ Len(w) < MaxWord
+        /\ \E a \in Letters(cls) : w' = Append(w, a)
+        /\ UNCHANGED <<cls, k>>
 
 \* isometries of the hyperbolic plane with two real fixed ideal points (hyperbolic elements of SO+(2,1)):
 \* determinant 1, preserving the time orientation, trace > 3.  For these the harness checks the law
